@@ -58,6 +58,13 @@ C22_BREAKS = {
                             "asserted-statement-lost:iterative-backward:protected-statement-removed"],
     "statement-rewritten": ["new-statement-appeared:"],
 }
+# judged on the in-process directed part (long chains, constant coverage function: every chain is coverage-redundant); real runs on
+# the `chains` SUT catch it only opportunistically (suite-level redundancy is not per-test redundancy)
+C22_DIRECTED_BREAKS = {
+    "dependencies-one-level": ["asserted-statement-lost:iterative-forward:protected-statement-removed",
+                               "asserted-statement-lost:iterative-backward:protected-statement-removed",
+                               "asserted-statement-lost:combined-visitor:protected-statement-removed"],
+}
 # proposed repairs (monkeypatched inside the driver child): the named witness key of the unchanged tree must disappear,
 # (the mechanisms are attributed independently: see the printed key sets)
 C22_DIRECTED_FIXES = {  # judged on the in-process directed part (hand-built tests through the real visitors)
@@ -72,6 +79,9 @@ C22_FIXES = {
     "PROPOSED_FIX_combined-protection": ["asserted-statement-lost:combined-ignores-protection"],
 }
 C22_RUNS = [
+    {"sut": "chains", "algorithm": "DYNAMOSA", "seed": 500, "iterations": 8, "assertion_generation": "SIMPLE", "strategy": "CASE", "direction": "FORWARD"},
+    {"sut": "chains", "algorithm": "MOSA", "seed": 501, "iterations": 8, "assertion_generation": "SIMPLE", "strategy": "CASE", "direction": "BACKWARD"},
+    {"sut": "chains", "algorithm": "MOSA", "seed": 504, "iterations": 8, "assertion_generation": "SIMPLE", "strategy": "COMBINED", "direction": "FORWARD"},
     {"sut": "tri", "algorithm": "DYNAMOSA", "seed": 100, "iterations": 6, "assertion_generation": "SIMPLE", "strategy": "CASE", "direction": "FORWARD"},
     {"sut": "queue_", "algorithm": "MOSA", "seed": 101, "iterations": 6, "assertion_generation": "SIMPLE", "strategy": "CASE", "direction": "BACKWARD",
      "coverage_metrics": ["BRANCH", "LINE"]},
@@ -204,7 +214,7 @@ def main(argv):
         if any(s.startswith("c22") for s in sel):
             jobs[("c22", "pipe", None)] = ex.submit(run_pipeline_part, "checks.c22_minimization_coverage", C22_RUNS, None)
             jobs[("c22", "in", None)] = ex.submit(c22_directed, None)
-            for b in C22_DIRECTED_FIXES:
+            for b in list(C22_DIRECTED_FIXES) + list(C22_DIRECTED_BREAKS):
                 if wanted("c22", b):
                     jobs[("c22", "in", b)] = ex.submit(c22_directed, b)
             for b in list(C22_BREAKS) + list(C22_FIXES):
@@ -230,7 +240,7 @@ def main(argv):
             print(f"[{check}/{part}] fix   {brk:38s} {'KEY GONE' if good else 'NOT EFFECTIVE'}  keys now: {json.dumps(got)}")
             ok &= good
             continue
-        expected = {"c21": lambda b: C21_BREAKS[b][1], "c22": lambda b: C22_BREAKS[b], "c35": lambda b: C35_BREAKS[b]}[check](brk)
+        expected = {"c21": lambda b: C21_BREAKS[b][1], "c22": lambda b: {**C22_BREAKS, **C22_DIRECTED_BREAKS}[b], "c35": lambda b: C35_BREAKS[b]}[check](brk)
         ok &= judge(f"{check}/{part}", brk, got, baseline, expected, incon)
     print("SELFTEST", "PASSED" if ok else "FAILED")
     return 0 if ok else 1
